@@ -1,8 +1,11 @@
 //! vprops: batteries, generators, engine and one module per property (DESIGN.md section 1).
 pub mod battery;
+pub mod decode;
 pub mod engine;
+pub mod fuzzglue;
 pub mod gen;
 pub mod interp;
+pub mod minimize;
 pub mod props;
 pub mod spec;
 pub mod stats;
